@@ -24,7 +24,18 @@ func ruleN4(c *an.Ctx) {
 		required = append(required, r)
 	}
 	nRaw, nEnc := 0, 0
-	for _, fn := range impls {
+	// the writers may have been factored out of the implementations: scan their private helpers too
+	var scan []*ssa.Function
+	seenFn := map[*ssa.Function]bool{}
+	for _, impl := range impls {
+		for _, m := range familyOfShared(c.P, impl, impls, 2) {
+			if !seenFn[m] {
+				seenFn[m] = true
+				scan = append(scan, m)
+			}
+		}
+	}
+	for _, fn := range scan {
 		an.Instrs(fn, func(in ssa.Instruction) {
 			call, ok := in.(*ssa.Call)
 			if !ok {
@@ -105,6 +116,6 @@ func ruleN4(c *an.Ctx) {
 		})
 	}
 	c.Note("N4: raw string writes in FilterJson implementations: %d (encoded writes: %d)", nRaw, nEnc)
-	c.Floor("N4", "raw string writes in FilterJson implementations (today: the json.Marshal error fallbacks)", nRaw, 2)
+	c.Floor("N4", "raw string writes in FilterJson implementations (today: the json.Marshal error fallbacks)", nRaw, 1)
 	_ = fmt.Sprint
 }
